@@ -320,7 +320,7 @@ pub fn run(run: &mut Run) {
     // (2) random multi-byte text
     let tables = crate::refs::cp::tables();
     let ch = prop_oneof![
-        3 => (0x20u8..0x7F).prop_filter("no caret", |b| *b != b'^').prop_map(|b| b as char),
+        3 => (0x20u8..0x7E).prop_map(|b| if b == b'^' { '~' } else { b as char }),
         3 => (0..tables.len(), any::<prop::sample::Index>()).prop_map(move |(t, ix)| {
             let e = &tables[t].entries;
             e[ix.index(e.len())].1
